@@ -25,6 +25,8 @@ type Outcome struct {
 	stopEnv  map[ssa.Value]Val
 }
 
+var diagArms = os.Getenv("GOVC_DEADARMS") != ""
+
 const maxSteps = 4000000
 
 // pruneAfterPaths: from this many paths on, every fork is preceded by a solver
@@ -247,9 +249,15 @@ func (x *Run) runBlock(fr *Frame, b *ssa.BasicBlock, idx int, st *State) []Outco
 		case *ssa.If:
 			c := x.val(fr, st, ins.Cond)
 			if c.T == "true" {
+				if diagArms {
+					st.trace = append(st.trace, x.branchLabel(ins, true))
+				}
 				return append(outs, x.enterBlock(fr, b, b.Succs[0], st)...)
 			}
 			if c.T == "false" {
+				if diagArms {
+					st.trace = append(st.trace, x.branchLabel(ins, false))
+				}
 				return append(outs, x.enterBlock(fr, b, b.Succs[1], st)...)
 			}
 			// the path condition already decides this branch (the same test was made
@@ -707,6 +715,7 @@ func (x *Run) execUnOp(fr *Frame, st *State, ins *ssa.UnOp, outs *[]Outcome) {
 		fr.env[ins] = r
 	case token.ARROW:
 		ct := types.Unalias(ins.X.Type()).Underlying().(*types.Chan)
+		x.interfere(fr, st)
 		r := x.freshVal(st, "recv", ct.Elem())
 		if !ins.CommaOk {
 			st.events = append(st.events, Event{Name: "recv", Args: []Val{v, r}, Ret: Val{T: "true", S: SBool}})
